@@ -13,20 +13,22 @@ open CalmVerif.Props.C02
 #check @space_table_hits
 #print axioms dropped_semis_are_asi_restorable_partial
 #check @dropped_semis_are_asi_restorable_partial
+#print axioms no_statement_slot_after_optional_space
+#check @no_statement_slot_after_optional_space
 #print axioms space_body_slots
 #check @space_body_slots
 #print axioms kf01_witness
 #check @kf01_witness
-#print axioms kf02a_witness
-#check @kf02a_witness
+#print axioms fixed_kf02a
+#check @fixed_kf02a
 #print axioms kf02b_witness
 #check @kf02b_witness
 #print axioms kf02c_witness
 #check @kf02c_witness
-#print axioms kf02d_witness
-#check @kf02d_witness
-#print axioms kf02d_witness_silent
-#check @kf02d_witness_silent
+#print axioms fixed_kf02d
+#check @fixed_kf02d
+#print axioms fixed_kf02d_block
+#check @fixed_kf02d_block
 #print axioms kf02e_witness
 #check @kf02e_witness
 #print axioms kf02f_witness
